@@ -37,6 +37,9 @@ type Variant struct {
 	// What a swap mints depends on the scales of the tokens as they are on *this* path; sibling paths (and with
 	// them every discarded branch a node executes: failed transactions, simulations) may have seen other ones.
 	LateIssue bool
+	// NearCap: the second fee token is issued one main unit below its maximum supply; a holder may burn half a
+	// micro-unit's worth of it, so that the room under the cap is no whole number of units of the other token
+	NearCap bool
 	// ContractScale: decimals the ERC20 contract is deployed with (0 = the token's own scale, 6)
 	ContractScale uint32
 }
@@ -104,7 +107,11 @@ func (d *Driver) Init(e *mc.Env) *mc.State {
 	if d.V.LateIssue {
 		s.Model = &lateModel{}
 	} else {
-		must(s.Deliver(e, "fx-issue-b", &v1.MsgIssueToken{Symbol: symB, Name: "B", MinUnit: unitB, Scale: 18, InitialSupply: 5, MaxSupply: 1000, Mintable: true, Owner: mc.Addr("A").String()}), "issue b")
+		initB, maxB := uint64(5), uint64(1000)
+		if d.V.NearCap {
+			initB, maxB = 999, 1000
+		}
+		must(s.Deliver(e, "fx-issue-b", &v1.MsgIssueToken{Symbol: symB, Name: "B", MinUnit: unitB, Scale: 18, InitialSupply: initB, MaxSupply: maxB, Mintable: true, Owner: mc.Addr("A").String()}), "issue b")
 	}
 	// the contract's own decimals are an argument of the deployment and need not be the token's scale
 	dscale := uint32(6)
@@ -144,6 +151,12 @@ func (d *Driver) Enabled(e *mc.Env, s *mc.State) []mc.Op {
 		add("feeswap(A,1e12,to=blocked)", opData{kind: "feeswap", who: "A", to: "feecollector", amt: e12})
 		add("feeswap-via-router(A,1e12)", opData{kind: "feeswap", who: "A", amt: e12, router: true})
 		add("feeswap-reverse(A,5)", opData{kind: "feeswap-rev", who: "A", amt: five})
+		if d.V.NearCap {
+			// outputs around and above the room that is left under the minted token's maximum supply
+			add("feeswap-reverse(A,1e6)", opData{kind: "feeswap-rev", who: "A", amt: sdkmath.NewInt(1_000_000)})
+			add("feeswap-reverse(A,2e6)", opData{kind: "feeswap-rev", who: "A", amt: sdkmath.NewInt(2_000_000)})
+			add("burn-b(A,5e11)", opData{kind: "burn-b", who: "A", amt: sdkmath.NewIntWithDecimal(5, 11)})
+		}
 		// a third party issues a token whose SYMBOL equals the min unit of a swappable token (symbols and min
 		// units are unique only among themselves), with another scale
 		add("issue-lookalike(B,symbol="+unitA+",scale=18)", opData{kind: "lookalike", who: "B"})
@@ -368,6 +381,9 @@ func (d *Driver) Apply(e *mc.Env, s *mc.State, op mc.Op) []mc.Finding {
 		if od.to == "feecollector" && od.kind == "from" {
 			// nothing in the property forbids it explicitly; recorded in the histogram only
 		}
+		return fs
+	case "burn-b":
+		s.Deliver(e, op.Name, &v1.MsgBurnToken{Coin: mc.CI(unitB, amt), Sender: mc.Addr(od.who).String()})
 		return fs
 	case "feeswap", "feeswap-rev":
 		ratio := sdkmath.LegacyMustNewDecFromStr(d.V.Ratio)
